@@ -4,8 +4,9 @@
    function or object defined in one of them, each module referring to it by GOT load, pointer in
    data, or (E only) direct non-PIC reference; static-linker model (copy relocation exported from E,
    canonical PLT entry in E's dynsym) + loader model (lookup in scope order): OneAddress,
-   InitialValueVisible, SharedStore hold for all 393 scenarios; the variants NoExportCopy,
-   NoCanonicalPlt, LocalBindInLib must each be rejected.
+   InitialValueVisible, SharedStore hold for all 949 scenarios (incl. library objects with a weak
+   alias name at the same address, each module using either name); the variants NoExportCopy,
+   NoCanonicalPlt, LocalBindInLib, NoAliasExport must each be rejected.
 2. Replay: every (thorough) / sampled (quick) scenario record is generated as three assembly modules;
    wild links all three (and, to isolate the executable side, E against GNU-ld-linked libraries);
    GNU ld links all three as oracle of the scenario.  The program is executed under the system ld.so:
@@ -28,7 +29,7 @@ META = {
     "ready": True,
     "level": "model_checking",
     "technique": "TLA+ multi-module linker/loader model (copy relocations, canonical PLT, GOT) checked exhaustively by TLC, its scenarios replayed as real three-module programs linked by wild and executed under the system dynamic loader; statically observed views judged by the spec's OneAddress operator",
-    "level_text": "All 393 scenarios {function, object} x defining module x reference kind per module (GOT, data pointer, direct non-PIC from the executable) x {PIE, non-PIE} are explored by TLC (OneAddress, InitialValueVisible, SharedStore; three broken variants rejected). Each sampled (quick) / every (thorough) scenario is linked by the real wild (all modules, and the executable against GNU-ld libraries), executed natively (address agreement, initial value, stores through every view), and statically observed at a second base set with the views judged by TLC.",
+    "level_text": "All 949 scenarios {function, object, object with a weak alias name} x defining module x reference kind and name used per module (GOT, data pointer, direct non-PIC from the executable) x {PIE, non-PIE} are explored by TLC (OneAddress, InitialValueVisible, SharedStore; four broken variants rejected). Each sampled (quick) / every (thorough) scenario is linked by the real wild (all modules, and the executable against GNU-ld libraries), executed natively (address agreement, initial value, stores through every view), and statically observed at a second base set with the views judged by TLC.",
     "level_note": "One shared entity per program, three modules, x86-64, default symbol visibility; ifunc entities and symbol versioning are not covered. Trusted base: TLC, GNU as, system ld.so, the harness loader model (cross-checked against native execution).",
     "engine": "tlc",
 }
@@ -44,7 +45,7 @@ def model(ctx, cov):
     if miss:
         raise ToolError(f"vacuous LoaderMM run: {miss}")
     runs = [{"cfg": "mc/LoaderMM_correct.cfg", **r.summary(), "records": len(r.records)}]
-    for v in ("NoExportCopy", "NoCanonicalPlt", "LocalBindInLib"):
+    for v in ("NoExportCopy", "NoCanonicalPlt", "LocalBindInLib", "NoAliasExport"):
         rb = tlc.run_tlc("MCLoaderMM", f"mc/LoaderMM_{v}.cfg", workers=4, timeout=600, coverage=False)
         if rb.ok or not rb.violated:
             raise ToolError(f"broken variant {v} was not rejected by the LoaderMM invariants")
@@ -99,7 +100,17 @@ def run(ctx):
     if ctx.quick:
         hard = [r for r in recs if r["expectCopy"] or r["expectCanonicalPlt"]]
         rest = [r for r in recs if not (r["expectCopy"] or r["expectCanonicalPlt"])]
-        pick = rng.sample(hard, min(22, len(hard))) + rng.sample(rest, 28)
+        # always: a library object with a weak alias, copy-relocated by the executable under the strong name
+        # only, read / written by a library through the alias - PIE and non-PIE
+        ali = [r for r in recs if r["alias"] and r["expectCopy"] and not r["aliasE"] and (r["aliasL1"] or r["aliasL2"])]
+        must = []
+        for pie in (False, True):
+            a = [r for r in ali if r["pie"] == pie]
+            must += rng.sample(a, min(4, len(a)))
+        if len(must) < 8:
+            raise ToolError("the LoaderMM model no longer emits the alias / copy-relocation scenarios")
+        hard = [r for r in hard if r not in must]
+        pick = must + rng.sample(hard, min(20, len(hard))) + rng.sample(rest, 24)
     else:
         pick = recs
     with scratch("c38") as d:
@@ -156,6 +167,8 @@ def run(ctx):
                     n_bad += 1
                     mech = "copy" if rec["expectCopy"] else ("canonical-plt" if rec["expectCanonicalPlt"] else "symbolic")
                     key = f"{rec['kind']}:def{rec['def']}:{mech}:{'pie' if rec['pie'] else 'nopie'}:E{rec['refE']}{('-' + rec.get('direct', '')) if rec['refE'] == 'direct' else ''}:{tag}"
+                    if rec.get("alias"):
+                        key += ":alias" + "".join(m for m in mm.MODS if rec.get("alias" + m))
                     ctx.verdict.report(key, f"{res['name']} [{tag}]: " + "; ".join(why)[:700],
                                        lambda res=res: save_replay(PROP, res["name"], src_dir=res["dir"],
                                                                    meta={"rec": res["rec"], "cfg": res["cfg"]}))
